@@ -280,3 +280,21 @@ check(
     "DESIGN.md section 3 C11",
     "gridlab",
 )
+
+ENGINES[-1 if ENGINES[-1]["name"] == "gridlab" else 2]["serves_properties"].append("C12")
+check(
+    "C12",
+    "exploration",
+    "Adversarial Hypothesis descriptors at and beyond the limits of the supported envelope (psi ranges past the wall or the "
+    "second X-point, 1-2 cells per region, up to 6 guard cells, spacing lengths over six decades, 9x9..33x33 input psi, "
+    "extreme tolerances, every non-orthogonal spacing method, distorted equilibria): an exception is a pass, a written "
+    "grid is validated completely (documented variable set and shapes, finiteness with exactly the documented NaNs, "
+    "hy, dy > 0, one sign of J, no folded cell); unknown / invalid options through the command-line entry points and "
+    "equilibrium-mesh option mismatches must be refused; every shipped example geometry and option file is run through "
+    "its entry point.",
+    "The supported envelope is open-ended; the adversarial strategy covers the stated strata. Shipped geqdsk option "
+    "files can only be checked for acceptance because their equilibria are git-LFS pointers.",
+    "adversarial PBT (Hypothesis) with a validity-predicate oracle + enumeration of shipped inputs",
+    "DESIGN.md section 3 C12",
+    "gridlab",
+)
